@@ -179,21 +179,17 @@ impl<'a, 'b> Gen<'a, 'b> {
             }
         }
         if self.ctxs.len() > 1 && !self.p.closed {
-            // globals: only the outermost top-level scope (U5), textually before this point
-            // but every open top-level scope can shadow: a name declared in an inner open top-level scope hides the outer one
+            // globals: the variables of every top-level scope that is open where the function literal stands (innermost first).
+            // U5 cannot arise: a function value never flows to a scope outside the one it was created in (function variables are
+            // not assigned, not stored in arrays and not returned to outer scopes), so it is only called while those scopes are open.
             let g = &self.ctxs[0];
-            let mut hidden: Vec<String> = Vec::new();
-            for (depth, s) in g.scopes.iter().enumerate().rev() {
+            for s in g.scopes.iter().rev() {
                 for v in s.iter().rev() {
-                    if seen.contains(&v.name) || hidden.contains(&v.name) {
+                    if seen.contains(&v.name) {
                         continue;
                     }
-                    if depth == 0 {
-                        seen.push(v.name.clone());
-                        out.push(v.clone());
-                    } else {
-                        hidden.push(v.name.clone());
-                    }
+                    seen.push(v.name.clone());
+                    out.push(v.clone());
                 }
             }
         }
@@ -445,6 +441,13 @@ impl<'a, 'b> Gen<'a, 'b> {
             0 | 1 => self.atom(&ty),
             2 | 3 | 4 => {
                 let op = *self.t.pick(&[Operator::Add, Operator::Subtract, Operator::Multiply, Operator::Divide, Operator::Modulo]);
+                // a variable of another type against a small literal: `x + 0`, `1 * x`, ... (exactly the shapes the compiler fuses)
+                let others: Vec<Var> = self.visible().into_iter().filter(|v| matches!(v.ty, Ty::Float | Ty::Str | Ty::Bool | Ty::Arr(..))).collect();
+                if !others.is_empty() && self.take_fault("ill-typed-variable") {
+                    let v = ident(&self.t.pick(&others).name.clone());
+                    let k = int(*self.t.pick(&[0i64, 1, 1, 2, 7]));
+                    return if self.t.maybe(128) { infix(v, op, k) } else { infix(k, op, v) };
+                }
                 let l = if self.take_fault("ill-typed-operand") { self.wrong_typed(&ty) } else { self.expr(&ty, d - 1) };
                 let r = if matches!(op, Operator::Divide | Operator::Modulo) {
                     if self.take_fault("zero-divisor") {
@@ -682,6 +685,11 @@ impl<'a, 'b> Gen<'a, 'b> {
         }
         let n = self.t.below(self.p.max_block_stmts);
         body.extend(self.stmts(n, d));
+        if *ret == Ty::Null && rec.is_none() && self.t.maybe(70) {
+            // an empty body: the parameters are all there is
+            self.ctxs.pop();
+            return vec![];
+        }
         if *ret == Ty::Null {
             // a body that ends in a declaration has no value (valueless return)
             let ty = self.value_ty();
@@ -719,8 +727,8 @@ impl<'a, 'b> Gen<'a, 'b> {
                 names.push(nm);
             }
         }
-        let ret = match self.t.below(if self.p.tail_decls { 7 } else { 6 }) {
-            6 => Ty::Null,
+        let ret = match self.t.below(7) {
+            6 if self.t.maybe(if self.p.tail_decls { 255 } else { 90 }) => Ty::Null,
             0..=2 => Ty::Int,
             3 => Ty::Bool,
             4 if self.p.strings => Ty::Str,
